@@ -121,6 +121,63 @@ MUTANTS = [
     M("client-serves-skip-length", UP,
       "            return self._read_encrypted(length, hash_only=False)\n",
       "            return self._read_encrypted(offset, hash_only=False)\n", "C44.8"),
+    # -- C44.9 keystream continuity
+    M("ks-skipped-bytes-not-encrypted", UP,
+      "            ciphertext = aes.encrypt_data(self._encryptor, chunk)\n            if hash_only:\n"
+      "                self.log(\"  skipping encryption\", level=log.NOISY)\n            else:\n"
+      "                cryptdata.append(ciphertext)\n            del ciphertext\n",
+      "            if hash_only:\n                self.log(\"  skipping encryption\", level=log.NOISY)\n            else:\n"
+      "                cryptdata.append(aes.encrypt_data(self._encryptor, chunk))\n", "C44.9"),
+    M("ks-encrypt-only-when-wanted", UP,
+      "            ciphertext = aes.encrypt_data(self._encryptor, chunk)\n            if hash_only:\n"
+      "                self.log(\"  skipping encryption\", level=log.NOISY)\n            else:\n"
+      "                cryptdata.append(ciphertext)\n            del ciphertext\n",
+      "            if not hash_only:\n                ciphertext = aes.encrypt_data(self._encryptor, chunk)\n"
+      "                cryptdata.append(ciphertext)\n                del ciphertext\n", "C44.9"),
+    M("ks-big-skipped-chunks-bypass-cipher", UP,
+      "            self._update_segment_hash(chunk)\n            # TODO: we have to encrypt the data (even if hash_only==True)\n",
+      "            self._update_segment_hash(chunk)\n            if hash_only and len(chunk) >= self.CHUNKSIZE:\n"
+      "                continue\n            # TODO: we have to encrypt the data (even if hash_only==True)\n", "C44.9"),
+    M("ks-skip-hashes-in-callback-only", UP,
+      "            ct = self._hash_and_encrypt_plaintext(plaintext, hash_only)\n",
+      "            if hash_only:\n                for chunk in plaintext:\n                    self._plaintext_hasher.update(chunk)\n"
+      "                    self._update_segment_hash(chunk)\n                ciphertext_accum.extend(size, [])\n                return\n"
+      "            ct = self._hash_and_encrypt_plaintext(plaintext, hash_only)\n", "C44.9"),
+    M("ks-remote-skip-reads-plaintext-directly", UP,
+      "        d = self._eu.read_encrypted(length, hash_only)\n        def _read(strings):\n            if hash_only:\n",
+      "        if hash_only:\n            d = defer.maybeDeferred(self._eu.original.read, length)\n        else:\n"
+      "            d = self._eu.read_encrypted(length, hash_only)\n        def _read(strings):\n            if hash_only:\n", "C44.9"),
+    M("ks-new-encryptor-per-read", UP,
+      "        if self._encryptor:\n            return defer.succeed(self._encryptor)\n\n        d = self.original.get_encryption_key()\n",
+      "        d = self.original.get_encryption_key()\n", "C44.9"),
+    # -- C44.10 failure is reported and deregistered
+    M("fail-closes-unstarted-reader", OFF,
+      "                 level=log.UNUSUAL)\n        self._finished_observers.fire(f)\n",
+      "                 level=log.UNUSUAL)\n        self._reader.close()\n        self._finished_observers.fire(f)\n", "C44.10"),
+    M("fail-closes-reader-file-directly", OFF,
+      "        self._finished_observers.fire(f)\n        self._helper.upload_finished(self._storage_index, 0)\n",
+      "        self._finished_observers.fire(f)\n        self._reader.f.close()\n"
+      "        self._helper.upload_finished(self._storage_index, 0)\n", "C44.10"),
+    M("fail-unlinks-missing-encoding-file", OFF,
+      "                 level=log.UNUSUAL)\n        self._finished_observers.fire(f)\n",
+      "                 level=log.UNUSUAL)\n        os.unlink(self._encoding_file)\n        self._finished_observers.fire(f)\n", "C44.10"),
+    M("fail-does-not-deregister", OFF,
+      "        self._helper.upload_finished(self._storage_index, 0)\n        del self._reader\n",
+      "        self._upload_status.set_active(False)\n        del self._reader\n", "C44.10"),
+    M("fail-errback-only-logs", OFF,
+      "        d.addCallback(self._finished)\n        d.addErrback(self._failed)\n",
+      "        d.addCallback(self._finished)\n        d.addErrback(log.err)\n", "C44.10"),
+    M("fetcher-fail-closes-unopened-file", OFF,
+      "        if self._f:\n            self._f.close()\n        self._readers = []\n        self._done_observers.fire(f)",
+      "        self._f.close()\n        self._readers = []\n        self._done_observers.fire(f)", "C44.10"),
+    M("fetcher-chain-errback-only-logs", OFF,
+      "        d.addCallback(self._done2, started)\n        d.addErrback(self._failed)\n",
+      "        d.addCallback(self._done2, started)\n        d.addErrback(log.err)\n", "C44.10"),
+    M("loop-errback-returns-failure", OFF,
+      "            fire_when_done.errback(f)\n", "            return f\n", "C44.10"),
+    M("deregister-only-successful", OFF,
+      "        del self._active_uploads[storage_index]\n",
+      "        if size:\n            del self._active_uploads[storage_index]\n", "C44.10"),
     # -- benign
     M("benign-needed-eq-zero", OFF, "        if fetch_size == 0:\n", "        if needed == 0:\n", None),
     M("benign-have-plus-form", OFF,
@@ -163,6 +220,46 @@ MUTANTS = [
       "            self._have = 0\n            self.log(\"we do not have any ciphertext yet\", level=log.NOISY)\n",
       "        self._have = 0\n        if os.path.exists(self._incoming_file):\n"
       "            self._have = os.stat(self._incoming_file)[stat.ST_SIZE]\n", None),
+    M("benign-ks-for-loop", UP,
+      "        while data:\n            chunk = data.pop(0)\n", "        for chunk in data:\n", None),
+    M("benign-ks-encrypt-first", UP,
+      "            self._plaintext_hasher.update(chunk)\n            self._update_segment_hash(chunk)\n"
+      "            # TODO: we have to encrypt the data (even if hash_only==True)\n"
+      "            # because the AES-CTR implementation doesn't offer a\n"
+      "            # way to change the counter value. Once it acquires\n"
+      "            # this ability, change this to simply update the counter\n"
+      "            # before each call to (hash_only==False) encrypt_data\n"
+      "            ciphertext = aes.encrypt_data(self._encryptor, chunk)\n",
+      "            ciphertext = aes.encrypt_data(self._encryptor, chunk)\n"
+      "            self._plaintext_hasher.update(chunk)\n            self._update_segment_hash(chunk)\n", None),
+    M("benign-ks-append-unless-hash-only", UP,
+      "            if hash_only:\n                self.log(\"  skipping encryption\", level=log.NOISY)\n            else:\n"
+      "                cryptdata.append(ciphertext)\n",
+      "            if not hash_only:\n                cryptdata.append(ciphertext)\n", None),
+    M("benign-ks-empty-chunk-skipped", UP,
+      "            bytes_processed += len(chunk)\n            self._plaintext_hasher.update(chunk)\n",
+      "            if not chunk:\n                continue\n            bytes_processed += len(chunk)\n"
+      "            self._plaintext_hasher.update(chunk)\n", None),
+    M("benign-ks-encryptor-is-none-test", UP,
+      "        if self._encryptor:\n            return defer.succeed(self._encryptor)\n",
+      "        if self._encryptor is not None:\n            return defer.succeed(self._encryptor)\n", None),
+    M("benign-fail-deregister-first", OFF,
+      "        self._finished_observers.fire(f)\n        self._helper.upload_finished(self._storage_index, 0)\n",
+      "        self._helper.upload_finished(self._storage_index, 0)\n        self._finished_observers.fire(f)\n", None),
+    M("benign-fail-guarded-close", OFF,
+      "                 level=log.UNUSUAL)\n        self._finished_observers.fire(f)\n",
+      "                 level=log.UNUSUAL)\n        try:\n            self._reader.close()\n        except Exception:\n"
+      "            pass\n        self._finished_observers.fire(f)\n", None),
+    M("benign-fail-close-after-deregistering", OFF,
+      "        self._helper.upload_finished(self._storage_index, 0)\n        del self._reader\n",
+      "        self._helper.upload_finished(self._storage_index, 0)\n        if hasattr(self._reader, \"f\"):\n"
+      "            self._reader.f.close()\n        del self._reader\n", None),
+    M("benign-fetcher-fail-is-not-none", OFF,
+      "        if self._f:\n            self._f.close()\n        self._readers = []\n        self._done_observers.fire(f)",
+      "        if self._f is not None:\n            self._f.close()\n        self._readers = []\n        self._done_observers.fire(f)", None),
+    M("benign-deregister-with-pop", OFF,
+      "        uh = self._active_uploads[storage_index]\n        del self._active_uploads[storage_index]\n",
+      "        uh = self._active_uploads.pop(storage_index)\n", None),
     # -- vanished anchor
     M("vanish-start-reading", OFF, "    def _start_reading(self, res):", "    def _start_readingX(self, res):", "ANALYSIS-ERROR"),
 ]
